@@ -2,6 +2,7 @@ package engine
 
 import (
 	"go/token"
+	"strings"
 
 	"golang.org/x/tools/go/ssa"
 )
@@ -167,7 +168,7 @@ func deriveFacts(fs []Fact, depth int) []Fact {
 			// if only one edge can be nil, control came over it
 			cand, n := -1, 0
 			for i, e := range phi.Edges {
-				if knownNonNilValue(e) {
+				if i < len(phi.Block().Preds) && nonNilAtEdge(e, phi.Block().Preds[i], phi.Block(), depth+1) {
 					continue
 				}
 				n++
@@ -183,6 +184,35 @@ func deriveFacts(fs []Fact, depth int) []Fact {
 
 // DeriveFacts exposes the phi derivation for a given set of facts.
 func DeriveFacts(fs []Fact) []Fact { return deriveFacts(fs, 0) }
+
+// nonNilAtEdge: v cannot be nil when the edge is taken: a sentinel, a fresh
+// error, a wrap of a value known non-nil there, or a value the edge's facts
+// say is non-nil.
+func nonNilAtEdge(v ssa.Value, from, to *ssa.BasicBlock, depth int) bool {
+	if knownNonNilValue(v) {
+		return true
+	}
+	if depth > 3 {
+		return false
+	}
+	fs := factsAtEdgeDepth(from, to, depth)
+	if HasFact(fs, func(x Fact) bool { return x.SaysNotNil(v) }) {
+		return true
+	}
+	if call, ok := v.(*ssa.Call); ok {
+		n := Callee(call)
+		switch {
+		case strings.HasSuffix(n, "errors.New") || strings.HasSuffix(n, "errors.Errorf") || n == "fmt.Errorf":
+			return true
+		case strings.Contains(n, "errors.Wrap") || strings.Contains(n, "errors.WithMessage") || strings.Contains(n, "errors.WithStack"):
+			if len(call.Call.Args) > 0 {
+				inner := call.Call.Args[0]
+				return knownNonNilValue(inner) || HasFact(fs, func(x Fact) bool { return x.SaysNotNil(inner) })
+			}
+		}
+	}
+	return false
+}
 
 // knownNonNilValue: a freshly constructed error / sentinel load.
 func knownNonNilValue(v ssa.Value) bool {
